@@ -77,8 +77,10 @@ class RawIntList(Spec):
         elif r < 0.6 and n >= 2:
             i = rng.randrange(n - 1)
             base[i], base[i + 1] = base[i + 1], base[i]   # unsorted
-        elif r < 0.8:
+        elif r < 0.75:
             base = list(range(base[0], base[0] + 2 * n, 2))   # equally spaced
+        elif r < 0.9:
+            base = list(range(base[0] + 3 * n, base[0], -3))  # equally spaced but descending: must be rejected
         return base
 
 
